@@ -33,7 +33,7 @@ Judge ==
   LET r == Trace[t]
       bad == {c \in DOMAIN r.eouts : r.eouts[c] # r.esrc}
   IN /\ (bad = {} \/ PrintT(<<"FAIL", r.id, {"literal_value_or_completion_changed"}>>))
-     /\ (r.kind \in {"num", "key"} \/ RefOf(r) = Invalid \/ RefOf(r) = EngineString(r.esrc) \/ PrintT(<<"ORACLE", r.id>>))
+     /\ (r.kind \in {"num", "key", "multi"} \/ RefOf(r) = Invalid \/ RefOf(r) = EngineString(r.esrc) \/ PrintT(<<"ORACLE", r.id>>))
      /\ (Len(r.mout) = 0 \/ Contains(r.codes["compact"], r.mout, 1) \/ PrintT(<<"DRIFT", r.id>>))
 
 Accepted == (TLCGet("distinct") = N) \/ PrintT(<<"REJECTED", TLCGet("distinct"), N>>)
